@@ -123,6 +123,46 @@ def index(x):
 def va(*a):
     return a
 
+# every thread may derive its own values from a shared frozen one and change them: nobody else may notice
+def derive(x):
+    t = type(x)
+    if t == "list":
+        ys = [x[:], x[0:2], x[1:], x[::1], list(x), x + [], [] + x, x * 1, reversed(x), [e for e in x]]
+        for y in ys:
+            if len(y) > 0:
+                y[0] = "own"
+                y.pop()
+            y.append("own")
+            y.insert(0, "own")
+        return [len(y) for y in ys]
+    if t == "tuple":
+        ys = [list(x), list(x[:]), list(x[1:]), [e for e in x]]
+        for y in ys:
+            if len(y) > 0:
+                y[0] = "own"
+            y.append("own")
+        return [len(y) for y in ys]
+    if t == "dict":
+        ys = [dict(x), x | {}, {} | x, {k: v for k, v in x.items()}, dict(x.items())]
+        for y in ys:
+            for k in y.keys():
+                y[k] = "own"
+            y["own"] = 1
+            y.popitem()
+        ls = [x.keys(), x.values(), x.items()]
+        for l in ls:
+            if len(l) > 0:
+                l[0] = "own"
+            l.append("own")
+        return [len(y) for y in ys] + [len(l) for l in ls]
+    if t == "set":
+        ys = [set(x), x | set(), x.union([]), x & x, x - set(), x ^ set()]
+        for y in ys:
+            y.add("own")
+            y.pop()
+        return [len(y) for y in ys]
+    return []
+
 def iterate(x):
     out = []
     for e in x:
@@ -374,6 +414,7 @@ func c05Do(e *c05Env, in *c05Inst, twin *c05Inst, op, kind string, variant int) 
 	switch op {
 	case "index":
 		e.call(&sb, "index", h["index"], x)
+		e.call(&sb, "derive", h["derive"], x)
 		switch x := x.(type) {
 		case *starlark.List:
 			c05W(&sb, "Index", x.Index(0), nil)
